@@ -4,7 +4,7 @@
    wall clock, mixin recursion and import cycles are decided by the correspondence with a per-case time limit. *)
 From Coq Require Import String.
 From Coq Require Import List Ascii Bool NArith.
-Require Import Model.Text Model.Ast Model.Scope Model.Ident Model.Fmt Model.Eval Gen.PLimits Proofs.EvalProofs Proofs.TermProofs Proofs.RunawayProofs.
+Require Import Model.Text Model.Ast Model.Scope Model.Ident Model.Fmt Model.Eval Gen.PLimits Proofs.EvalProofs Proofs.TermProofs Proofs.RunawayProofs Proofs.FuelProofs.
 Import ListNotations.
 
 (* variables defined in terms of each other — a cycle of any length and shape — are reported (fuel exhausted),
@@ -48,6 +48,13 @@ Proof.
     + exists [], $".a", []. repeat split; auto.
   - vm_compute. reflexivity.
 Qed.
+
+(* the bound on substitution rounds matters for cycles only: a value that evaluates with some amount of fuel evaluates to the same
+   token list with every larger amount (arithmetic, calls, interpolation included) *)
+Theorem C20_more_rounds_same_result :
+  forall sc f g ts res, f <= g -> eval_value f sc ts = ROk res -> eval_value g sc ts = ROk res.
+Proof. exact eval_value_mono. Qed.
+Print Assumptions C20_more_rounds_same_result.
 
 (* the limits the code enforces, re-read from the source on every run *)
 Theorem C20_limits : (process_round_limit, mixin_depth_limit, import_depth_limit) = (64, 64, 8) /\ recursion_error_reported = true.
